@@ -31,7 +31,7 @@ def programs(rng, names, thorough):
     explicit generator are compared everywhere)"""
     from ..entropy_exec import OPS
     progs = []
-    seeds = [3, 8, 41, 1000003, 2 ** 31 - 5]
+    seeds = [0, 3, 8, 41, 1000003, 2 ** 31 - 5, 2 ** 31 - 1]       # boundary values of the seed argument included
     for nm in names:
         kind, _, explicit = OPS[nm]
         s = rng.choice(seeds)
